@@ -224,3 +224,53 @@ func Verif_c30_havoc() {
 	verifAssert(r.didReset == fresh.didReset && r.usedNew == fresh.usedNew && r.tempDir == fresh.tempDir, "Reset: bookkeeping differs")
 	verifReach("end")
 }
+
+// programs whose statements depend on each other through $?, variables,
+// functions, options and exit
+var verifC30Steps = [...]string{
+	"false\necho $?\ntrue\necho $?",
+	"(exit 3)\nexit",
+	"x=$X\necho \"$x\"\nf() { return 4; }\nf\necho $? $x",
+	"set -e\necho a\nfalse\necho not-reached",
+	"a=(1 $X)\na+=(3)\necho ${#a[@]} ${a[1]}\nunset a\necho ${a-unset}",
+	"trap 'echo bye' EXIT\necho hi\n! true\necho $?\nexit 2\necho no",
+	"cd /\necho $PWD $OLDPWD\nset -- p q\nshift\necho $1 $#",
+	"if false; then :; fi\necho $?\n[[ $X == a ]]\necho $?\n(( 0 ))\necho $?",
+	"alias e='echo al'\nshopt -s expand_aliases\ne $X\nwhile false; do :; done\necho $?",
+}
+
+// Verif_c30_stepwise: running a file's top-level statements one Run call at
+// a time, stopping once Exited reports true, gives the same output, status
+// and variables as running the file in one call.
+func Verif_c30_stepwise() {
+	k := verifParam("prog")
+	if k < 0 {
+		k = verifChoice("prog", len(verifC30Steps))
+	}
+	x := verifString("X", verifParam("nx"))
+	for i := 0; i < len(x); i++ {
+		verifAssume(verifInSet(x[i], "ab 1*"))
+	}
+	f, err := syntax.NewParser().Parse(strings.NewReader(verifC30Steps[k]), "")
+	verifAssume(err == nil)
+	ctx := context.Background()
+	var o1, e1, o2, e2 bytes.Buffer
+	whole := verifRunner(&o1, &e1, Env(expand.ListEnviron("HOME=/h", "PATH=/bin", "X="+x)))
+	errW := whole.Run(ctx, f)
+	step := verifRunner(&o2, &e2, Env(expand.ListEnviron("HOME=/h", "PATH=/bin", "X="+x)))
+	var errS error
+	for _, st := range f.Stmts {
+		errS = step.Run(ctx, st)
+		if step.Exited() {
+			break
+		}
+	}
+	verifObserve("out", o1.String())
+	verifAssert(o1.String() == o2.String(), "stepwise run: output differs from the whole-file run")
+	verifAssert((errW == nil) == (errS == nil), "stepwise run: final status differs (error or not)")
+	if errW != nil && errS != nil {
+		verifAssert(errW.Error() == errS.Error(), "stepwise run: final status differs")
+	}
+	verifAssert(verifTreeEq(whole.Vars, step.Vars, 0), "stepwise run: final variables differ")
+	verifReach("end")
+}
